@@ -351,7 +351,11 @@ def c_len(ip, st, args, kw, node):
     if isinstance(a, SList):
         return SInt(st.lists[a.loc]['n'])
     if isinstance(a, SObj) and a.name == 'y':
-        return SInt(z3.Int('n_samples'))
+        # len(y) is NOT X.shape[0] in general (for the SVC dual the solver is handed the (n_features, n_samples) design y X^T):
+        # a symbol of its own
+        n = z3.Int('len_y')
+        st.pc.append(n >= 1)
+        return SInt(n)
     n = fresh(I, 'len')
     st.pc.append(n >= 0)
     return SInt(n)
